@@ -200,9 +200,17 @@ def coq_check_props(prop_file, timeout=900):
 
 def coqchk(module, timeout=3000):
     """Thorough tier: re-check the compiled property module and everything it depends on with the
-    independent checker; returns dict(ok, axioms, summary)."""
-    with CoqLock():
-        rc, out, dt = sh("coqchk -silent -o -Q . ZV %s" % module, cwd=COQ, timeout=timeout)
+    independent checker; returns dict(ok, axioms, summary). The compiled tree is copied under the
+    build lock (seconds) and checked from the copy, so a long coqchk never blocks other checks."""
+    import shutil
+    import tempfile
+    tmp = tempfile.mkdtemp(prefix="coqchk-", dir=BUILD)
+    try:
+        with CoqLock():
+            sh("rsync -a --include='*/' --include='*.vo' --exclude='*' %s/ %s/" % (COQ, tmp), timeout=600)
+        rc, out, dt = sh("coqchk -silent -o -Q . ZV %s" % module, cwd=tmp, timeout=timeout)
+    finally:
+        shutil.rmtree(tmp, ignore_errors=True)
     i = out.find("CONTEXT SUMMARY")
     summ = out[i:] if i >= 0 else out[-1500:]
     ax = []
